@@ -297,7 +297,7 @@ def make_run(W, shape, known_active=None):
     n = shape["n"]
     methods = shape["methods"]
     M = len(methods)
-    key = repr((methods, shape.get("selfarg"), shape.get("factory"), shape.get("classargs")))
+    key = repr((n, methods, shape.get("selfarg"), shape.get("factory"), shape.get("classargs")))
     ms = _MS.get(key)
     if ms is None:
         ms = _MS[key] = FactorySet(shape) if shape.get("factory") else MethodSet(bodies(shape))
